@@ -28,7 +28,9 @@ Definition L_magic16 : N := 4096.             (* 0x1000 *)
 Definition L_max : N := 65536.
 Definition L_pids : list N := [0; 3; 4; 16; 17].
 Definition L_streaming : N := 2.
-Definition gdpr : bytes := Eval vm_compute in map N_of_ascii (list_ascii_of_string ttheader_GDPRToken).
+(* the string-info key of the ACL token section ("RPC_TRANSIT_gdpr-token"): a literal, not the constant
+   regenerated from the code *)
+Definition gdpr : bytes := Eval vm_compute in map N_of_ascii (list_ascii_of_string "RPC_TRANSIT_gdpr-token"%string).
 
 (* ---------- finite maps as association lists ---------- *)
 Section Alist.
